@@ -393,6 +393,35 @@ theorem C12_strongly_fair_terminates (c : Cfg) (hn : 0 < c.n) (hr : c.repaired =
   intro hno
   exact e.not_strongly_fair hn hr (fun t ht => Classical.byContradiction fun hnf => hno ⟨t, ht, hnf⟩)
 
+/-- **Which blocks are processed**: when `walk_descents` has returned, the coordinator has started exactly the blocks
+    `0 … blk-1`, where block `blk-1` is the one that contains the chosen trial index `k` (`(blk-1)·n ≤ k < blk·n`): no
+    block after the successful one is started (`if (success) break`), none before it is skipped.  Together with
+    `C12_each_trial_evaluated_once`: the trial indices `0 … min(m, blk·n) - 1` are evaluated exactly once each, all
+    others never. -/
+theorem C12_blocks_started (c : Cfg) (hn : 0 < c.n) (hm : 2 ≤ c.m) (s : State) (h : Reach c s)
+    (hf : isFinal s = true) :
+    ∃ k, s.chosen = some (some k, c.less k 0) ∧ 0 < s.blk ∧ s.blk ≤ c.blocks ∧
+      (s.blk - 1) * c.n ≤ k ∧ k < s.blk * c.n := by
+  have hpc : s.cpc = .final := by simpa [isFinal] using hf
+  have hseq := C12_result_is_sequential c hn s h hf
+  obtain ⟨k, hk1, hkm, hsel, hor, _⟩ := C12_select_spec c.less c.m hm
+  obtain ⟨hle, hpos, hsome⟩ := (reach_blkInv c hn h).done (Or.inr (by simp [hpc, termPhase]))
+  have hch : s.chosen = some (some k, c.less k 0) := by
+    have := congrArg Prod.snd (hseq.trans hsel); simpa using this
+  have hblocks : 0 < c.blocks := (lt_blocks_iff c hn 0).mpr (by omega)
+  have hb0 : 0 < s.blk := by
+    rcases Nat.eq_zero_or_pos s.blk with h0 | h0
+    · have := hsome (by omega); rw [h0] at this; simp [flat_zero] at this
+    · exact h0
+  refine ⟨k, hch, hb0, hle, ?_, ?_⟩
+  · exact chosen_ge_of_flat_none c.less c.m _ k (hpos hb0).1 hk1 hor
+  · rcases Nat.lt_or_ge s.blk c.blocks with hlt | hge
+    · have hKm : s.blk * c.n ≤ c.m := Nat.le_of_lt ((lt_blocks_iff c hn s.blk).mp hlt)
+      exact chosen_lt_of_flat_some c.less c.m _ k _ hKm (hsome hlt) hsel
+    · have : ¬ c.blocks * c.n < c.m := fun hx => Nat.lt_irrefl _ ((lt_blocks_iff c hn c.blocks).mpr hx)
+      have hbe : s.blk = c.blocks := by omega
+      rw [hbe]; omega
+
 /-! ## Deepening (3): the numerical result is a fixed function of the inputs
 
 `PsV.Sync.DState` (Model/SyncData.lean) carries the data: the shared `x`, the per-worker records, what each worker
@@ -547,6 +576,8 @@ example : fairCfg.repaired = true ∧ 0 < fairCfg.n ∧ Nonempty (Exec fairCfg) 
 -- `C12_progress_measure`: a futile position (worker 0 woken spuriously with state WAIT) and a non-futile one
 example : ∃ s, runSched fairCfg (init fairCfg) [(0,false),(1,false),(1,false),(1,true)] = some s ∧
     futile fairCfg s 1 = true ∧ futile fairCfg s 0 = false := by decide
+-- `C12_blocks_started`: 2 workers, 3 trial steps: both blocks are needed (the chosen index 2 lies in block 1)
+example : 0 < (c12ex true).n ∧ 2 ≤ (c12ex true).m := by decide
 -- `C12_maximal_run_completes`: the complete run above ends in a state without enabled transition
 example : ∃ s, runSched (c12ex true) (init (c12ex true)) (exSchedule.map fun t => (t, false)) = some s ∧
     anyEnabled (c12ex true) s = false := by decide
@@ -570,6 +601,9 @@ example : ∃ d, runSchedD (c12data 2) (initD (c12data 2)) (exSchedule.map fun t
 example : ∃ d, runSchedD (c12data 1) (initD (c12data 1)) (exSchedule1.map fun t => (t, false)) = some d ∧
     isFinal d.ctl = true ∧ d.x = 109 ∧ d.res = some (0, 7) ∧ d.pick = some (some (2, 7), true) ∧ d.ctl.blk = 3 := by decide
 example : seqD (c12data 2) = (109, (some (0, 7), some (some (2, 7), true))) := by decide
+-- `C12_data_schedule_and_worker_count_independent`: the two instances differ only in the number of workers
+example : (c12data 1).num = (c12data 2).num ∧ (c12data 1).x0 = (c12data 2).x0 ∧ (c12data 1).m = (c12data 2).m ∧
+    (c12data 1).n ≠ (c12data 2).n := ⟨rfl, rfl, rfl, by decide⟩
 -- `C12_compute_inputs_stable`: after 13 steps both workers are inside their compute regions
 example : ∃ d, runSchedD (c12data 2) (initD (c12data 2)) ((exSchedule.take 13).map fun t => (t, false)) = some d ∧
     d.ctl.wpc 0 = .lock2 ∧ d.ctl.wpc 1 = .lock2 ∧ d.rdx 1 = 7 ∧ d.rda 1 = 1 := by decide
